@@ -17,12 +17,13 @@ functions, so that the correspondence check can drive the branches the defaults 
                         (`normalize_edge_orders`);
 * `implicitHydrogenReindex`  `implicit_hydrogen(graph, preserve, reindex=True)`;
 * `writeRuleX` / `itsToGmlX` / `smartToGmlX`  the GML writer with `explicit_hydrogen=True`
-                        (context graph expanded by `h_to_explicit`, context edges written).
+                        (context graph expanded by `h_to_explicit` *after* the renumbering of
+                        `reindex=True`, context edges written).
 
 Everything here is executable model code tied to the working tree by the correspondence; what the
 options promise is proved in `SynKitProofs/ReprOptLemmas.lean` / `Props/C10.lean` (namespace
 `SynKit.ReprOpt`: `hToExplicitG_totalH`, `_all`, `_restores`, `implicitHydrogenReindex_relabel`,
-`molToGraphOpt_default`, `_useIdx`, `_drop`, `itsToGmlX_false`, `itsToGmlX_roundtrip_partial`).  The two
+`molToGraphOpt_default`, `_useIdx`, `_drop`, `itsToGmlX_false`, `itsToGmlX_roundtrip`).  The two
 `example`s at the end pin the new definitions to the proved ones on a concrete input.
 -/
 namespace SynKit.ReprOpt
@@ -130,14 +131,16 @@ def ctxEdgeItem (e : Nat × Nat × Attrs) : Item :=
 def ctxItemsX (K : LGraph) (changed : List Nat) : List Item :=
   ctxItems K changed ++ (K.edges.filter fun e => stdZero e.2.2).map ctxEdgeItem
 
-/-- `NXToGML.transform((L, R, K), reindex=…, explicit_hydrogen=…)`. -/
+/-- `NXToGML.transform((L, R, K), reindex=…, explicit_hydrogen=…)`: the three graphs are renumbered
+first (`reindex`), the context graph is expanded by `h_to_explicit` afterwards — so the new hydrogens
+are numbered from the largest *renumbered* id + 1 and cannot meet a renumbered atom (F44 repaired,
+`notes/draft-fixes/0023-explicit-hydrogen-after-reindex.patch`). -/
 def writeRuleX (reindex explicitH : Bool) (L R K : LGraph) : Rule :=
   if !explicitH then writeRule reindex L R K else
-  let K1 := hToExplicitG K [] false
   let f : Nat → Nat := if reindex then indexMap L else id
   let L' := L.relabel f
   let R' := R.relabel f
-  let K' := K1.relabel f
+  let K' := hToExplicitG (K.relabel f) [] false
   let ch := findChanged L' R'
   { left := sideItems L' ch, context := ctxItemsX K' ch, right := sideItems R' ch }
 
